@@ -51,9 +51,10 @@ def main():
     ids = [p["id"] for p in props]
     checks, na = [], []
     serves = {e["name"]: [] for e in ENGINES}
+    claimed = set(open(os.path.join(HERE, "vlib", "claimed.txt")).read().split())
     for pid in ids:
         hits = sorted(glob.glob(os.path.join(HERE, "props", pid.lower() + "_*.py")))
-        if not hits or pid in NOT_CLAIMED:
+        if not hits or pid in NOT_CLAIMED or pid not in claimed:
             na.append({"property_id": pid, "reason": NOT_CLAIMED.get(
                 pid, "monitor not built yet in this session (designed in DESIGN.md section 5); not claimed until its check exists and is silent on the unchanged tree")})
             continue
